@@ -341,9 +341,9 @@ def run_benchmark_case(case):
       # the benchmark factory's stacking: shift, normalise, discretise / categorise on a grid, permute, noise
       from vizier._src.benchmarks.experimenters import experimenter_factory as ef
       return ef.SingleObjectiveExperimenterFactory(
-          ef.BBOBExperimenterFactory('Sphere', 3), shift=np.array([0.5, -0.3, 0.1]), noise_type='SEVERE_ADDITIVE_GAUSSIAN',
-          noise_seed=case['exp_seed'], num_normalization_samples=4, discrete_dict={1: 3}, categorical_dict={0: 4},
-          permute_categoricals=True, permute_seed=case['exp_seed'])()
+          ef.BBOBExperimenterFactory('Sphere', 4), shift=np.array([0.5, -0.3, 0.1, 0.2]), noise_type='SEVERE_ADDITIVE_GAUSSIAN',
+          noise_seed=case['exp_seed'], num_normalization_samples=4, discrete_dict={1: 3}, categorical_dict={0: 4, 2: 3, 3: 5},
+          permute_categoricals=True, permute_seed=case['exp_seed'])()      # THREE permuted parameters: one seeded stream feeds them in some order
     return SeededNoisyExperimenter(case['exp_seed'])
   try:
     factory = benchmark_state.ExperimenterDesignerBenchmarkStateFactory(
